@@ -92,6 +92,7 @@ func checkC09(e *Engine, r *Report) {
 		"R5 ledger symmetry (shared with C03): what an admission adds to grantedShared/grantedReserved is what the release subtracts",
 		"round 4: undo() of a trial balloon reaches a store freeCpus = freeCpus ∪ (that balloon's CPUs) (calls through the local slice of closures resolved); R14b propagated failures of the two policy packages (frozen caller/callee table)",
 	}
+	r.Rules = append(r.Rules, "round 6: when a balloon is dropped the free set becomes exactly free ∪ that balloon's CPUs (frame lemma R11:free-grows-by-balloon of the C02 check, adopted)")
 	r.NotDecided = []string{"equality of the final state with the pristine one (value-level)", "UpdateContainer for a container that already exited (allowed source (d), residual risk)"}
 	r.Assumptions = []string{"the runtime sends StopContainer before RemoveContainer for every container that was created"}
 	checkErrorPolarity(e, r, "R13 error-path undo", pkgTA, pkgBL, pkgRM)
